@@ -126,3 +126,8 @@ func init() {
 	register(&PropCheck{ID: "C15", Pkgs: []string{"client"}, FnRe: `^VerifC15_`, Level: "model_checking",
 		Rule: "unit level: the sequential framing methods of the client and server connections (segment write path, several envelopes per segment, multi-segment reassembly at every split point, layout switch, adoption of negotiated compression) executed on connection objects built in the harness / by the real server constructor; frame contents symbolic"})
 }
+
+func init() {
+	register(&PropCheck{ID: "C04", Pkgs: []string{"frame", "segment", "datacodec"}, FnRe: `^VerifC04_`, Level: "model_checking", Gen: genC04, BoundIsInfo: true, MaxSymBranches: 400,
+		Rule: "family 1: fully symbolic body bytes for every (opcode, version) and symbolic whole frames per version; family 2: a valid encoding of every message kind with a 4-byte window at every offset replaced by symbolic bytes and an arbitrary truncation point; every feasible path must end in a return (a Go panic is a violation, confirmed natively)"})
+}
